@@ -93,6 +93,12 @@ def c14 (fn : String) (a : List String) : Option String := do
     let rs := Options.recordSheet s
     let enc (l : Options.Level) := s!"{l.namerow} {l.typerow} {l.noterow} {l.datarow} {l.nameline} {l.typeline} {encString l.sep} {encString l.subsep}"
     some (enc rb ++ " / " ++ enc rs)
+  | "c14.recorddoc" =>
+    -- args: hasBook book(8) hasGlobal global(8) → recorded separators of a document workbook
+    let bm ← decOptLevel? (a.headD "") ((a.drop 1).take 8)
+    let g ← decOptLevel? ((a.drop 9).headD "") ((a.drop 10).take 8)
+    let rb := Options.recordBook g bm
+    some s!"{encString rb.sep} {encString rb.subsep}"
   | "c14.e2e" =>
     -- the sheet is laid out according to the SPECIFIED resolution; the run succeeds with the right
     -- data iff protogen's view and confgen's view of the recorded options are both that resolution
@@ -218,6 +224,15 @@ def c03 (fn : String) (a : List String) : Option String := do
   | _, _ => none
 
 /-! ### C13 (patch) -/
+/-- patch files of a load case: `-` (no such file) or `<format letter>:<message>` joined by `|` -/
+def decPatches? (s : String) : Option (List (Option Val)) :=
+  if s.isEmpty then some [] else
+  (s.splitOn "|").mapM fun spec =>
+    if spec == "-" then some none
+    else match spec.splitOn ":" with
+      | [_, v] => (decValArg? v).map some
+      | _ => none
+
 def c13 (fn : String) (a : List String) : Option String := do
   match fn, a with
   | "c13.patch", [d, dst, src] =>
@@ -231,6 +246,20 @@ def c13 (fn : String) (a : List String) : Option String := do
     let src ← decValArg? src
     -- the observation must be exactly the specified message (and the harness saw src untouched)
     some (verdict (obs == valString (Spec.C13.expected d dst src)))
+  | "c13.load", [d, pt, mode, _, _, main, patches] =>
+    let d ← decDescArg? d
+    let main ← decValArg? main
+    let ps ← decPatches? patches
+    let pt ← (match pt with | "n" => some Patch.PatchType.none | "r" => some .replace | "m" => some .merge | _ => none)
+    let mode ← (match mode with | "a" => some Patch.LoadMode.all | "m" => some .onlyMain | "p" => some .onlyPatch | _ => none)
+    some (valString (Patch.load d pt mode main ps))
+  | "o.c13.load", [d, pt, mode, _, _, main, patches, obs] =>
+    let d ← decDescArg? d
+    let main ← decValArg? main
+    let ps ← decPatches? patches
+    let pt ← (match pt with | "n" => some 0 | "r" => some 1 | "m" => some 2 | _ => none)
+    let mode ← (match mode with | "a" => some 0 | "m" => some 1 | "p" => some 2 | _ => none)
+    some (verdict (obs == valString (Spec.C13.loadExpected d pt mode main ps)))
   | _, _ => none
 
 /-! ### C12 (field properties) -/
@@ -293,6 +322,9 @@ def decTRes? (s : String) : Option Time.TRes :=
 def c20 (fn : String) (a : List String) : Option String := do
   match fn, a with
   | "c20.ts", [_name, zone, raw] => some (encTRes (Time.parseTimestamp (← decZone? zone) (← decStr? raw)))
+  | "c20.gen", [_loc, _machine, _eff, zone, raw] => some (encTRes (Time.parseTimestamp (← decZone? zone) (← decStr? raw)))
+  | "o.c20.gen", [_loc, _machine, _eff, zone, raw, obs] =>
+    some (Spec.C20.holdsTs (← decZone? zone) (← decStr? raw) (← decTRes? obs)).toString
   | "o.c20.ts", [_name, zone, raw, obs] =>
     some (Spec.C20.holdsTs (← decZone? zone) (← decStr? raw) (← decTRes? obs)).toString
   | _, _ => none
@@ -340,7 +372,9 @@ def c18 (fn : String) (a : List String) : Option String := do
     some (if Spec.C18.holdsPrep im (sortStrs fs) after then "holds" else "FAILS")
   | "c18.clean", [p] => some (encStr (Path.clean (← decStr? p)))
   | "c18.incr", [_] => some "same"       -- the model of a run is a function of the named books' inputs
+  | "c18.incr", [_, _] => some "same"
   | "o.c18.incr", [_, obs] => some (if obs == "same" then "holds" else "FAILS")
+  | "o.c18.incr", [_, _, obs] => some (if obs == "same" then "holds" else "FAILS")
   | _, _ => none
 
 def dispatch (line : String) : String :=
